@@ -78,14 +78,20 @@ func fatal(f string, a ...interface{}) {
 	os.Exit(2)
 }
 
+// loadProps reads harness/props.d/<ID>.json (one file per property).
 func loadProps() map[string]*PropSpec {
-	b, err := os.ReadFile(filepath.Join(verifDir, "harness", "props.json"))
-	if err != nil {
-		fatal("%v", err)
-	}
 	m := map[string]*PropSpec{}
-	if err := json.Unmarshal(b, &m); err != nil {
-		fatal("props.json: %v", err)
+	files, _ := filepath.Glob(filepath.Join(verifDir, "harness", "props.d", "*.json"))
+	for _, f := range files {
+		b, err := os.ReadFile(f)
+		if err != nil {
+			fatal("%v", err)
+		}
+		p := &PropSpec{}
+		if err := json.Unmarshal(b, p); err != nil {
+			fatal("%s: %v", f, err)
+		}
+		m[strings.TrimSuffix(filepath.Base(f), ".json")] = p
 	}
 	return m
 }
